@@ -228,6 +228,18 @@ fn typed_nested(outer_arr: bool, inner_arr: bool, inner: Type, items: &[Sexp]) -
     }
 }
 
+/// `dec_value`, two times out of three through one of the alternative conversions (chosen from the value).
+pub fn dec_value_any(v: &Sexp, salt: usize) -> Option<LhsValue<'static>> {
+    let route = route_of(v, salt);
+    match route % 3 {
+        0 => dec_value(v),
+        _ => match dec_value_via(v, route / 3) {
+            Some(x) => Some(x),
+            None => dec_value(v),
+        },
+    }
+}
+
 fn route_of(s: &Sexp, salt: usize) -> u64 {
     let mut h: u64 = 0xcbf29ce484222325 ^ (salt as u64);
     for b in s.to_line().bytes() {
